@@ -208,6 +208,13 @@ func (f *Frame) selectorsOf(in ssa.Instruction) []string {
 						st := fa.X.Type().Underlying().(*types.Pointer).Elem().Underlying().(*types.Struct)
 						sels = append(sels, "callfield:"+st.Field(fa.Field).Name())
 					}
+					// captured-by-reference variable holding a function value
+					if fv, ok := u.X.(*ssa.FreeVar); ok {
+						sels = append(sels, "callparam:"+fv.Name())
+					}
+					if al, ok := u.X.(*ssa.Alloc); ok && al.Comment != "" {
+						sels = append(sels, "callparam:"+al.Comment)
+					}
 				}
 				if fl, ok := cm.Value.(*ssa.Field); ok {
 					st := fl.X.Type().Underlying().(*types.Struct)
@@ -229,6 +236,13 @@ func (f *Frame) selectorsOf(in ssa.Instruction) []string {
 		}
 	case *ssa.Send:
 		sels = append(sels, "send")
+	case *ssa.Select:
+		for _, s := range in.States {
+			if s.Dir == types.SendOnly {
+				sels = append(sels, "select-send")
+				break
+			}
+		}
 	case *ssa.Store:
 		if fa, ok := in.Addr.(*ssa.FieldAddr); ok {
 			if st, ok := fa.X.Type().Underlying().(*types.Pointer).Elem().Underlying().(*types.Struct); ok {
@@ -383,7 +397,7 @@ func (f *Frame) indexAddrLoc(v *ssa.IndexAddr, st *State, reach Term) *Loc {
 			f.boundsCheck(v, reach, idx, app(c.I(), "sl_len", sl))
 		}
 		return &Loc{typ: xt.Elem(), root: rootElem, comp: c.elemComp(xt.Elem()), base: app(SInt, "sl_arr", sl),
-			idx: c.iadd(app(c.I(), "sl_off", sl), idx)}
+			off: app(c.I(), "sl_off", sl), idx: idx}
 	case *types.Pointer:
 		l := f.locOf(v.X)
 		if at, ok := xt.Elem().Underlying().(*types.Array); ok && !f.shape {
@@ -492,7 +506,7 @@ func (c *Ctx) strAt(s, i Term) Term {
 func (c *Ctx) sliceElem(st *State, sl, i Term, elem types.Type) Term {
 	comp := c.elemComp(elem)
 	inner := app(elemOfArr(c.compSort[comp]), "select", c.get(st, comp), app(SInt, "sl_arr", sl))
-	return tSelect(inner, c.iadd(app(c.I(), "sl_off", sl), i), c.sortOf(elem))
+	return c.slElem(inner, app(c.I(), "sl_off", sl), i)
 }
 
 var sentinelSeen = map[*Ctx][]Term{}
@@ -1079,6 +1093,51 @@ func (f *Frame) enterLoop(b *ssa.BasicBlock, ord int, st *State, reach Term) int
 		hi.phis[phi] = v
 		c.assume(c.valueInv(v, phi.Type(), st), false)
 	}
+	// built-in invariant of `for i := range x` loops: the hidden index phi
+	// rangeindex = phi[-1, rangeindex+1] with the back edge guarded by
+	// rangeindex+1 < len satisfies -1 <= rangeindex and (rangeindex < len or rangeindex == -1).
+	for phi, v := range hi.phis {
+		if phi.Comment != "rangeindex" || len(phi.Edges) < 2 {
+			continue
+		}
+		var inc *ssa.BinOp
+		shape := true
+		for i, e := range phi.Edges {
+			if f.isBackEdge(b.Preds[i], b) {
+				bo, ok := e.(*ssa.BinOp)
+				if !ok || (inc != nil && bo != inc) {
+					shape = false
+					break
+				}
+				inc = bo
+			} else if k, ok := e.(*ssa.Const); !ok || k.Value == nil || k.Int64() != -1 {
+				shape = false
+				break
+			}
+		}
+		if !shape || inc == nil || inc.Op != token.ADD || inc.X != ssa.Value(phi) {
+			continue
+		}
+		if k1, ok := inc.Y.(*ssa.Const); !ok || k1.Value == nil || k1.Int64() != 1 {
+			continue
+		}
+		iff, ok := b.Instrs[len(b.Instrs)-1].(*ssa.If)
+		if !ok {
+			continue
+		}
+		cmp, ok := iff.Cond.(*ssa.BinOp)
+		if !ok || cmp.Op != token.LSS || cmp.X != ssa.Value(inc) {
+			continue
+		}
+		if _, evaluated := f.vals[cmp.Y]; !evaluated {
+			if _, isConst := cmp.Y.(*ssa.Const); !isConst {
+				continue
+			}
+		}
+		ln := f.val(cmp.Y)
+		m1 := c.intConst(-1, v.Sort)
+		c.assume(tAnd(c.ile(m1, v), tOr(c.ilt(v, ln), tEq(v, m1))), false)
+	}
 	if lc != nil {
 		for _, inv := range lc.Invariants {
 			env := f.envAtHeader(st, b, hi.phis)
@@ -1108,7 +1167,8 @@ func (c *Ctx) valueInv(v Term, t types.Type, st *State) Term {
 		z := c.intConst(0, c.I())
 		return tAnd(c.ile(z, app(c.I(), "sl_len", v)), c.ile(app(c.I(), "sl_len", v), app(c.I(), "sl_cap", v)), c.ile(z, app(c.I(), "sl_off", v)),
 			app(SBool, "<=", intLit(0), app(SInt, "sl_arr", v)), app(SBool, "<=", app(SInt, "sl_arr", v), st.alloc),
-			tImp(tEq(app(SInt, "sl_arr", v), intLit(0)), tEq(app(c.I(), "sl_cap", v), z)), c.notUnescaped(app(SInt, "sl_arr", v)))
+			tImp(tEq(app(SInt, "sl_arr", v), intLit(0)), tEq(app(c.I(), "sl_cap", v), z)), c.notUnescaped(app(SInt, "sl_arr", v)),
+			c.typeRange(app(c.I(), "sl_cap", v), types.Typ[types.Int]), c.typeRange(c.iadd(app(c.I(), "sl_off", v), app(c.I(), "sl_cap", v)), types.Typ[types.Int]))
 	}
 	return tTrue
 }
